@@ -740,7 +740,9 @@ impl Visit for Analyzer<'_> {
           && a.scope.found_break.is_none();
       let has_break = matches!(a.scope.found_break, Some(None));
 
-      if return_or_throw && !has_break {
+      // A `continue` in the body skips the rest of the body and goes to the test,
+      // so a body that otherwise always returns/throws does not end the loop.
+      if return_or_throw && !has_break && !a.scope.found_continue {
         // This `unwrap` is safe;
         // if `return_or_throw` is true, `end_reason` is surely wrapped in `Some`.
         a.mark_as_end(body_lo, end_reason.unwrap());
